@@ -125,3 +125,68 @@ Fixpoint sobserve (v : sview) (ls : list C13.Model.label) : list nat :=
   | l :: r => let v1 := sstep v l in length (sv_appended v1) :: sobserve v1 r
   end.
 Definition srun (shape : list bool) (ls : list C13.Model.label) : sview := fold_left sstep ls (sview_init shape).
+
+(* ---- the promise checked on the observation of a scheduled (multi-thread) run.
+   A grant is (thread, sync point reached, entries appended so far).  A thread that is not in the middle of
+   an action begins its next action when granted; the reader's bookkeeping [sstep] is applied at that moment
+   (an action's visible effect - the guard's send, the begin of a drop - happens in its first block).
+   Observed: the slot whose guard began dropping in an earlier grant than the one in which the parent closed
+   that slot is present with the guard's content, every other slot is absent; the entry's own fields are the
+   owner's mutations; the append is not early and not late; open/wait results are the specification's. *)
+Record tstate := mk_tstate {
+  t_view : sview;
+  t_rest : list (list C13.Model.label);
+  t_mid : list bool;
+  t_prev : nat;                       (* entries appended so far *)
+  t_step : nat;                       (* index of the grant *)
+  t_dropped_at : list (option nat);   (* per slot: grant in which its guard began dropping *)
+  t_closed_at : list nat              (* grants in which the closing thread finished one more slot (code 5) *)
+}.
+
+Fixpoint nth_list {T} (l : list (list T)) (t : nat) : list T :=
+  match l, t with [], _ => [] | x :: _, O => x | _ :: r, S k => nth_list r k end.
+
+Definition guard_out (v : sview) (i : nat) : bool :=
+  match nth_error (sv_slots v) i with
+  | Some sl => match s_guard sl with SOut _ _ => true | _ => false end
+  | None => false
+  end.
+
+Fixpoint trace13 (st : tstate) (tr : list (nat * nat * nat)) (ok : bool) : bool * tstate :=
+  match tr with
+  | [] => (ok, st)
+  | (t, code, cnt) :: r =>
+      let in_mid := nth t (t_mid st) false in
+      let op := match nth_list (t_rest st) t with [] => None | l :: _ => Some l end in
+      let begins := negb in_mid in
+      let v := t_view st in
+      let v1 := if begins then match op with Some l => sstep v l | None => v end else v in
+      let rest1 := if begins then set_nth t (tl (nth_list (t_rest st) t)) (t_rest st) else t_rest st in
+      let mid1 := set_nth t (negb (Nat.eqb code 0)) (t_mid st) in
+      let dropped1 := if begins then
+                        match op with
+                        | Some (DropGuard i) => if guard_out v i then set_nth i (Some (t_step st)) (t_dropped_at st)
+                                                else t_dropped_at st
+                        | _ => t_dropped_at st
+                        end
+                      else t_dropped_at st in
+      let closed1 := if Nat.eqb code 5 then t_closed_at st ++ [t_step st] else t_closed_at st in
+      let d1 := due (sv_ka v1) in
+      let ok1 := ok && Nat.leb (t_prev st) cnt && Nat.leb cnt 1 &&
+                 (if Nat.eqb cnt 1 then d1 else true) &&
+                 (if forallb negb mid1 then Nat.eqb cnt (if d1 then 1 else 0) else true) in
+      let closed2 := if Nat.eqb cnt 1 && Nat.eqb (t_prev st) 0 then closed1 ++ [t_step st] else closed1 in
+      trace13 (mk_tstate v1 rest1 mid1 cnt (S (t_step st)) dropped1 closed2) r ok1
+  end.
+
+(* the expected entry: slot i is present iff its guard began dropping in an earlier grant than the one that
+   closed slot i (the k-th close event closes slot k; slots closed in the appending grant share its index) *)
+Fixpoint expected_slots (i : nat) (sls : list sslot) (dropped : list (option nat)) (closed : list nat) (last : nat)
+  : list (option value) :=
+  match sls with
+  | [] => []
+  | sl :: r =>
+      let c := nth i closed last in
+      let present := match nth i dropped None with Some d => Nat.ltb d c | None => false end in
+      (if present then slot_value sl else None) :: expected_slots (S i) r dropped closed last
+  end.
